@@ -222,27 +222,53 @@ def paths_check(ctx, impl, names, jobs):
 # ---------------------------------------------------------------------------
 # 2. uploads
 
-VARIANTS = ["empty", "old", "stale", "tmplink", "finallink", "old+tmplink"]
+VARIANTS = ["empty", "old", "stale", "tmplink", "finallink", "old+tmplink",
+            # symlinks whose destination does not exist (os.path.exists follows links: False; islink: True), chains, loops,
+            # and a directory squatting on the temporary name
+            "tmpdangling-out", "tmpdangling-in", "finaldangling", "tmpchain", "tmpchain-dangling", "tmploop", "tmpdir"]
+TMP_LINK_VARIANTS = ("tmplink", "tmpdangling", "tmpchain", "tmploop")
 OLD, STALE = b"OLD-CONTENT", b"STALE"
 LINK = "../sentinel/victim"
+DANGLING_OUT, DANGLING_IN, CHAIN = "../sentinel/newfile", "ghost", "zz-chain"
 
 
 def prepopulate(target, comp, variant):
-    """-> model entries [(relpath, ('F', content) | ('L', linktarget))]"""
-    ents = []
+    """creates the initial state and -> model entries [(abspath, ('F', content) | ('L', linktext) | ('D',))]"""
+    arena = os.path.dirname(target)
+    ents = [(os.path.join(arena, "sentinel", "victim"), ("F", b"SENTINEL"))]
     final, tmp = os.path.join(target, comp), os.path.join(target, comp + ".partial")
+
+    def link(text, at):
+        os.symlink(text, at)
+        ents.append((at, ("L", text)))
     if "old" in variant:
         open(final, "wb").write(OLD)
         ents.append((final, ("F", OLD)))
     if variant == "finallink":
-        os.symlink(LINK, final)
-        ents.append((final, ("L", LINK)))
+        link(LINK, final)
+    if variant == "finaldangling":
+        link(DANGLING_OUT, final)
     if variant == "stale":
         open(tmp, "wb").write(STALE)
         ents.append((tmp, ("F", STALE)))
     if "tmplink" in variant:
-        os.symlink(LINK, tmp)
-        ents.append((tmp, ("L", LINK)))
+        link(LINK, tmp)
+    if variant == "tmpdangling-out":
+        link(DANGLING_OUT, tmp)
+    if variant == "tmpdangling-in":
+        link(DANGLING_IN, tmp)
+    if variant == "tmpchain":
+        link(LINK, os.path.join(target, CHAIN))
+        link(CHAIN, tmp)
+    if variant == "tmpchain-dangling":
+        link(DANGLING_OUT, os.path.join(target, CHAIN))
+        link(CHAIN, tmp)
+    if variant == "tmploop":
+        link(comp + ".partial", tmp)
+    if variant == "tmpdir":
+        os.mkdir(tmp)
+        open(os.path.join(tmp, "inner"), "wb").write(b"INNER")
+        ents.append((tmp, ("D",)))
     return ents
 
 
@@ -295,7 +321,7 @@ def one_upload(ctx, impl, name, blocks, ending, variant, sig=None, src=None, col
                 ops=rec.ops)
     ctx.hist("upload_outcome", out.split(":")[0] if out.startswith("raise") or out.startswith("fail") else out)
     if outside1 != outside0:
-        ctx.fail(sig or ("oracle/upload-follows-preexisting-partial-symlink" if "tmplink" in variant else
+        ctx.fail(sig or ("oracle/upload-follows-preexisting-partial-symlink" if any(x in variant for x in TMP_LINK_VARIANTS) else
                          "oracle/upload-escapes-directory"),
                  "upload of name %r (initial state %s) changed something outside the target directory: before %r after %r; "
                  "operations %r" % (name, variant, outside0, outside1, rec.ops), replay=what)
@@ -310,7 +336,7 @@ def one_upload(ctx, impl, name, blocks, ending, variant, sig=None, src=None, col
                      % (name, inside1, want), replay=what)
     else:
         want = dict(inside0)
-        if plain(comp):
+        if plain(comp) and variant != "tmpdir":
             want.pop(comp + ".partial", None)     # a stale temporary of the same name may be consumed; never left
         if inside1 != want:
             s = "oracle/upload-leftover" if any(k.endswith(".partial") for k in inside1) and inside1.get(comp) == inside0.get(comp) \
@@ -363,6 +389,8 @@ def coq_ents(ents):
         if e[0] == "F":
             es.append("(%s, F %d)" % (cb(p), len(cs)))
             cs.append(cb(e[1]))
+        elif e[0] == "D":
+            es.append("(%s, D)" % cb(p))
         else:
             es.append("(%s, L %s)" % (cb(p), cb(e[1])))
     return coq_list(es), coq_list(cs)
@@ -392,12 +420,16 @@ def upload_check(ctx, impl, names, jobs):
                     ctx.case(["upload", n, variant, [b.hex() for b in bl], e], nontrivial=True)
                     ctx.hist("ending", e if e == "done" else "%s-after-%d" % (e[2], e[1]))
                     ctx.hist("variant", variant)
-                    if e == "done":
+                    if e == "done" and variant != "tmpdir":
                         sweep.append(cases[-1])
     ctx.sample(dict(name="a/../b", blocks=["da", "ta"], variant="old+tmplink", ending=["error", 1, "disconnect"]))
     # (c) crash before every operation
     if ctx.tier == "quick":
-        sweep = [c for c in sweep if len(c["blocks"]) <= 3][:ctx.n(60, 0)]
+        small = [c for c in sweep if len(c["blocks"]) <= 3]
+        per = {}
+        for c in small:
+            per.setdefault(c["variant"], []).append(c)
+        sweep = [c for v in per for c in per[v][:6]]
     for c in sweep:
         c["crash_views"] = crash_sweep(ctx, impl, c)
     upload_correspond(ctx, cases, jobs)
@@ -421,6 +453,7 @@ UPLOAD_OBS = """Definition obs (c : str * str * list (list N) * outcome * (list 
   | Some final =>
     let ops := upload_ops final blocks oc in
     let s := run s0 ops in
+    if failed s then [[2%N]] else
     [[1%N]] ++ flat_map enc_op (effective s0 ops) ++
     [[100%N]; code_view (look s final); code_view (look s (final ++ putfile_tmp_ext)); [b2n (failed s); b2n (followed s)]] ++
     (if with_crash then [101%N] :: crash_views s0 ops final else [])
@@ -444,6 +477,8 @@ def upload_correspond(ctx, cases, jobs):
                                                            "true" if "crash_views" in c else "false"))
             if c["out"] in ("raise:InsecurePath", "raise:BadFilenameError") and not c["ops"]:
                 exp.append([[0]])
+            elif c["out"] == "raise:IsADirectoryError" and [o[0] for o in c["ops"]] == ["open-failed"]:
+                exp.append([[2]])       # open() raised: the model's `failed`
             else:
                 e = [[1]] + enc_ops(c["ops"]) + [[100], c["final_view"], c["tmp_view"], [0, 0]]
                 if "crash_views" in c:
